@@ -454,11 +454,17 @@ query is read to exactly the given dimensions in the given units; anything else 
 
 open Build
 
-/-- a dimension is read from exactly a two-element array `[number, "unit"]`, as that number in that
-unit; no other JSON shape gives a dimension -/
+/-- a dimension is read from exactly a two-element array `[number, unit]`, as that number in that
+unit; no other JSON shape gives a dimension.  The unit is its serde name, as a string (`"feet"`) or
+— serde's other form of a unit variant — as the single key of an object with value `null`
+(`{"feet": null}`): `Build.unitName? false`.  (RESTATED after the fidelity review of the builders:
+the earlier statement admitted the string form only, which is false of the code —
+`"height": [5.0, {"feet": null}]` is accepted by `VehicleParameters::from_query`.) -/
 theorem vehicle_dimension_read_exactly (dec : Nat → α) (j : Option Json) :
-    (∀ x u, dimOfJson dec j = some (x, u) ↔ ∃ l b, j = some (.arr [.num l b, .str u.name]) ∧ x = dec b) ∧
-    (∀ x u, weightOfJson dec j = some (x, u) ↔ ∃ l b, j = some (.arr [.num l b, .str u.name]) ∧ x = dec b) :=
+    (∀ x u, dimOfJson dec j = some (x, u) ↔
+      ∃ l b uj, j = some (.arr [.num l b, uj]) ∧ unitName? false uj = some u.name ∧ x = dec b) ∧
+    (∀ x u, weightOfJson dec j = some (x, u) ↔
+      ∃ l b uj, j = some (.arr [.num l b, uj]) ∧ unitName? false uj = some u.name ∧ x = dec b) :=
   ⟨dimOfJson_iff dec j, weightOfJson_iff dec j⟩
 
 /-- `from_query` answers with a vehicle exactly when the query's `vehicle_parameters` has the five
